@@ -55,3 +55,14 @@ pub fn base_graph_for<K: Kmer>(spec: &crate::spec::GraphSpec) -> BaseGraph<K, u1
     }
     BaseGraph::combine(parts.into_iter().filter(|g| g.len() > 0))
 }
+
+/// `base_graph_for`, honouring the spec's provenance flag (serde round trip before finishing).
+pub fn base_graph_with_provenance<K: Kmer + serde::Serialize + serde::de::DeserializeOwned>(spec: &crate::spec::GraphSpec) -> BaseGraph<K, u16> {
+    let b = base_graph_for::<K>(spec);
+    if spec.via_serde {
+        let bytes = serde_json::to_vec(&b).expect("serialise BaseGraph");
+        serde_json::from_slice(&bytes).expect("deserialise BaseGraph")
+    } else {
+        b
+    }
+}
